@@ -161,13 +161,15 @@ UidLineClasses == { LC("uid", "-", "work", s, 1, "-", "unitid", "string", "-", u
 LineClasses == RawClasses \cup EofClasses \cup PlainClasses \cup JsonClasses \cup UidLineClasses
 
 \* ------------------------------------------------------------------------
-\* What the code answers.  reply: none | error | error2 (two ERROR lines: the JSON error falls through to the command
-\* lookup with an empty command name) | json | stream (a greeting line, then the connection is no longer a command session).
+\* What the code answers.  reply: none | error (one ERROR line; since the repair of the JSON branch of RunControlSession a
+\* line that is not a JSON object with a string command is answered once - as found it was answered twice, the JSON error
+\* and then "Unknown command" for the empty command name) | json | stream (a greeting line, then the connection is no
+\* longer a command session).
 \* first: required prefix of the first reply line.  cont: the session accepts a further command line.
 \* closes: the server closes the connection after the reply.
 R(reply, first, cont, closes) == [reply |-> reply, first |-> first, cont |-> cont, closes |-> closes]
 RErr    == R("error", "ERROR", TRUE, FALSE)
-RErr2   == R("error2", "ERROR", TRUE, FALSE)
+RErr2   == RErr      \* malformed JSON / missing or non-string command: kept as a name for the class of causes
 RJson   == R("json", "{", TRUE, FALSE)
 RNone   == R("none", "", TRUE, FALSE)
 RConn   == R("stream", "Connecting", FALSE, FALSE)
@@ -180,13 +182,14 @@ UidAnswer(sub, u) ==
   THEN IF sub = "results" THEN RResult ELSE RJson
   ELSE RErr       \* "unknown work unit ..." for every id that does not name a unit, whatever characters it has
 
+BadJsonIds == {"binary_brace", "long_brace", "json_trailing", "json_truncated", "json_no_command", "json_command_number",
+               "json_command_null", "json_command_bool", "json_command_array", "json_command_object",
+               "json_empty_object", "json_deep"}
 RawAnswer(i) ==
   CASE i = "empty"   -> RNone       \* empty line: ignored
     [] i = "cr_only" -> RNone       \* CR is dropped by the reader, the line is empty
     [] i \in {"blank", "binary", "long_plain", "json_array", "plain_unknown", "plain_unknown_args", "tab_sep", "utf8_bom"} -> RErr
-    [] i \in {"binary_brace", "long_brace", "json_trailing", "json_truncated", "json_no_command", "json_command_number",
-              "json_command_null", "json_command_bool", "json_command_array", "json_command_object",
-              "json_empty_object", "json_deep"} -> RErr2
+    [] i \in BadJsonIds -> RErr2
     [] i \in {"json_command_unknown", "json_command_upper"} -> RErr   \* the JSON form does not lower-case the command
     [] i \in {"long_valid_json", "plain_upper_status", "json_dup_command"} -> RJson
 
@@ -195,7 +198,7 @@ EofAnswer(i) ==
   CASE i = "eof_now"             -> R("none", "", FALSE, TRUE)
     [] i = "eof_partial_valid"   -> R("json", "{", FALSE, TRUE)
     [] i = "eof_partial_invalid" -> R("error", "ERROR", FALSE, TRUE)
-    [] i = "eof_partial_badjson" -> R("error2", "ERROR", FALSE, TRUE)
+    [] i = "eof_partial_badjson" -> R("error", "ERROR", FALSE, TRUE)
     [] i = "eof_partial_long"    -> R("error", "ERROR", FALSE, TRUE)
     [] i = "abort_midline"       -> R("none", "", FALSE, TRUE)    \* the client is gone; nothing can be observed but liveness
     [] i = "abort_after_valid"   -> R("none", "", FALSE, TRUE)
@@ -315,8 +318,7 @@ KindOf(c) ==
   CASE c.fam = "eof" -> (IF c.id \in {"abort_midline", "abort_after_valid", "eof_now"} THEN "abort" ELSE "eof_partial")
     [] c.uid = "diskonly" -> (IF c.sub \in {"release", "force-release"} THEN "rel_disk" ELSE IF c.sub = "results" THEN "stream_disk" ELSE "q_disk")
     [] a.reply = "none"   -> "empty"
-    [] a.reply = "error2" -> "err2"
-    [] a.reply = "error"  -> (IF c.uid = "nostatus" THEN "err_scan" ELSE "err")
+    [] a.reply = "error"  -> (IF c.uid = "nostatus" THEN "err_scan" ELSE IF c.fam = "raw" /\ c.id \in BadJsonIds THEN "err2" ELSE "err")
     [] a.reply = "stream" -> (IF UsesU(c) THEN "stream_unit" ELSE "stream")
     [] a.reply = "json"   -> IF UsesU(c) /\ c.sub \in {"release", "force-release"} THEN "rel_unit"
                              ELSE IF UsesU(c) THEN "q_unit" ELSE "json"
@@ -325,14 +327,14 @@ LineVec(c) == [class |-> c, expect |-> Answer(c), wellformed |-> WellFormed(c), 
 
 \* ---- properties of the table (C08, per line)
 AlwaysAnswers ==      \* every non-empty line that is not a valid command is answered by a line starting with ERROR
-  Part = "lines" => (NonEmpty(lc) /\ ~WellFormed(lc) /\ ~Lenient(lc) => Answer(lc).reply \in {"error", "error2"} /\ Answer(lc).first = "ERROR")
+  Part = "lines" => (NonEmpty(lc) /\ ~WellFormed(lc) /\ ~Lenient(lc) => Answer(lc).reply = "error" /\ Answer(lc).first = "ERROR")
 SessionContinuesT ==  \* only a take-over (connect, submit, results) or the client's own EOF ends a command session
   Part = "lines" => (~Answer(lc).cont => Answer(lc).reply = "stream" \/ lc.fam = "eof")
-EveryReplyClassified == Part = "lines" => Answer(lc).reply \in {"none", "error", "error2", "json", "stream"}
+EveryReplyClassified == Part = "lines" => Answer(lc).reply \in {"none", "error", "json", "stream"}
 PathIdsNeverResolve ==  \* ids with path characters never name a unit
   Part = "lines" => (lc.fam = "uid" /\ lc.uid \in {"dotdot", "dot", "slash", "empty", "trav_existing"} => Answer(lc).reply = "error")
 W_NoLenient      == ~(Part = "lines" /\ Lenient(lc) /\ ~WellFormed(lc))
-W_NoError2       == ~(Part = "lines" /\ Answer(lc).reply = "error2")
+W_NoError2       == ~(Part = "lines" /\ KindOf(lc) = "err2")      \* a malformed-JSON class exists
 W_NoDiskOnlyJson == ~(Part = "lines" /\ lc.uid = "diskonly" /\ Answer(lc).reply = "json")
 
 (***************************************************************************)
@@ -352,7 +354,7 @@ UnitsInit == [u |-> "mem", d |-> "disk"]
 Seq1(kind, un) ==
   CASE kind = "empty"    -> [reply |-> "none",   un |-> un]
     [] kind \in {"err", "err_scan"} -> [reply |-> "error",  un |-> un]
-    [] kind = "err2"     -> [reply |-> "error2", un |-> un]
+    [] kind = "err2"     -> [reply |-> "error",  un |-> un]      \* malformed JSON: one ERROR line, the session goes on
     [] kind = "json"     -> [reply |-> "json",   un |-> un]
     [] kind = "q_unit"   -> [reply |-> IF un.u = "mem" THEN "json" ELSE "error", un |-> un]
     [] kind = "rel_unit" -> [reply |-> IF un.u = "mem" THEN "json" ELSE "error", un |-> [un EXCEPT !.u = "gone"]]
@@ -457,7 +459,7 @@ SessionContinues ==
      ss[s].mode = "closed" => LET n == Len(ss[s].got) IN n > 0 /\ EndsSession(ss[s].sent[n], ss[s].got[n])
 AlwaysAnswersS ==
   Part = "sessions" => \A s \in Sessions : \A i \in 1..Len(ss[s].got) :
-     ss[s].sent[i] \in {"err", "err_scan", "err2"} => ss[s].got[i] \in {"error", "error2"}
+     ss[s].sent[i] \in {"err", "err_scan", "err2"} => ss[s].got[i] = "error"
 W_NoRescanDone == ~(Part = "sessions" /\ \E s \in Sessions : du[s].d = "mem")
 W_NoTwoBusy    == ~(Part = "sessions" /\ \A s \in Sessions : ss[s].busy /\ ss[s].prog # <<>>)
 
